@@ -71,6 +71,13 @@ CHECKS = {
         technique="deterministic simulation: exhaustive enumeration of inserted-reset outcome histories + register-exhaustion fault injection over allocation histories, reference = fresh-wire circuit",
         design="4/C22",
     ),
+    "C13": dict(
+        category="fault_enumeration",
+        text="For every measurement-based decomposition rule found by scanning the rule registry (Hadamard PPM; CNOT / CY / CZ lattice-surgery PPM; measurement-based Adjoint(TemporaryAND); measurement-based QROM), the rule's own queue (real qfunc, real Conditional objects, real measurement-value arithmetic, real allocation) is walked over ALL outcome histories of its measurements -- the outcomes are the faults, enumerated exhaustively -- on random input states and wire labellings. On every branch the target wires must hold T|psi> exactly (pure, unentangled from the work wires) and the work wires must end in a pure state that depends on the history alone.",
+        note="Exhaustive over outcome histories per rule and input; inputs and labellings are sampled. PauliMeasure is not executable on any in-repo device, so measurements are applied by the independent reference simulator as projectors (stated as a stub); device-level mid-circuit measurement code is driven by C21 instead. A branch-dependent global phase is allowed by the property and not checked.",
+        technique="deterministic simulation: exhaustive enumeration of measurement-outcome histories (fault enumeration) over the real rule queues, reference state-vector simulator",
+        design="4/C13",
+    ),
 }
 
 NA = {}
